@@ -480,7 +480,7 @@ func checkMain(prop, tier string) int {
 				}
 			}
 		}
-		js := map[string]any{"job": j.ID, "states": r.St.States, "transitions": r.St.Transitions,
+		js := map[string]any{"job": j.ID, "kind": j.Kind, "bounds": j.P, "config": j.S, "states": r.St.States, "transitions": r.St.Transitions,
 			"exhaustive": r.St.Exhaustive, "max_depth": r.St.MaxDepth, "wall_s": round2(r.WallS),
 			"states_per_size": r.St.PerSize, "distinct_observations": r.St.DistinctObs}
 		if r.St.Cap != "" {
